@@ -6,6 +6,7 @@ use serde_json::{json, Value};
 
 pub mod redact;
 pub mod sign;
+pub mod uri;
 
 pub struct Report {
     pub bound: String,
@@ -28,6 +29,7 @@ pub fn run(name: &str, tier: &str) -> Option<Value> {
     Some(match name {
         "redact" => redact::run(tier).to_json(),
         "sign" => sign::run(tier).to_json(),
+        "uri" => uri::run(tier).to_json(),
         _ => return None,
     })
 }
